@@ -508,10 +508,31 @@ func (g *Gen) buildCall(op *OpDesc) (Call, bool) {
 			}
 		}
 	}
+	if op.Bytes && c.HasB && !c.BNil && rng.Bool(0.4) {
+		// the input is a window of a larger caller buffer (e.g. h[:32] of a 64-byte hash)
+		c.BPad = []int{1, 32, 32, 64, 100}[rng.Intn(5)]
+		c.BOff = []int{0, 0, 1, 32}[rng.Intn(4)]
+	}
 	if op.Name == "Point.SetExtendedCoordinates" {
 		c.Fault = "reject/sem" // random element quadruples are invalid with overwhelming probability
 	}
 	return c, true
+}
+
+// validInputFor returns an input of the right length that the setter accepts.
+func (g *Gen) validInputFor(name string, n int) []byte {
+	switch name {
+	case "Point.SetBytes":
+		return g.validPointEnc()
+	case "Scalar.SetCanonicalBytes":
+		for {
+			o, b := g.scalarBytes()
+			if o == name {
+				return b
+			}
+		}
+	}
+	return g.rng.Bytes(n)
 }
 
 func (g *Gen) ledgerBytes(n int) int {
@@ -1139,7 +1160,7 @@ func (g *Gen) enumReject() {
 					}
 					r, pre := recv()
 					g.push(pre...)
-					g.push(Call{Op: op.Name, R: r, HasB: true, B: rng.Bytes(l), Fault: "reject/len"})
+					g.push(Call{Op: op.Name, R: r, HasB: true, B: rng.Bytes(l), Fault: "reject/len", BPad: []int{0, 32, 64}[rng.Intn(3)]})
 				}
 				r, pre := recv()
 				g.push(pre...)
@@ -1174,6 +1195,8 @@ func (g *Gen) enumReject() {
 				default:
 					g.push(Call{Op: op.Name, R: r, HasB: true, B: rng.Bytes(n)})
 				}
+				// right length, window of a larger buffer
+				g.push(Call{Op: op.Name, R: rng.Intn(pool), HasB: true, B: g.validInputFor(op.Name, n), BPad: []int{32, 64, 100}[rng.Intn(3)], BOff: rng.Intn(2) * 32})
 				continue
 			}
 			// Point.SetExtendedCoordinates: invalid quadruples of each sub-kind
